@@ -228,12 +228,13 @@ func Capitalize(s string) string {
 		if unicode.IsUpper(r) {
 			return s
 		}
+		_, size := utf8.DecodeRuneInString(s[i:])
 		r = unicode.ToUpper(r)
 		b := strings.Builder{}
 		b.Grow(len(s))
 		b.WriteString(s[:i])
 		b.WriteRune(r)
-		b.WriteString(s[i+utf8.RuneLen(r):])
+		b.WriteString(s[i+size:])
 		return b.String()
 	}
 	return s
